@@ -408,6 +408,33 @@ func (m *c16Mon) OnState(w *world.World, hist []world.Op) []explore.Finding {
 				break
 			}
 		}
+		// navigation reads the search path only: a cursor placed by Ceil, and a SeekIter stopped at its first entry
+		for i := 0; i < cfg.NAll(); i++ {
+			w.Store.ResetLog()
+			r := guardRes(func() error {
+				c, err := t.Cursor(ctx)
+				if err != nil {
+					return err
+				}
+				return c.Ceil(ctx, cfg.Key(i))
+			})
+			if r.Err == nil && r.Panic == nil {
+				if n := len(w.Store.Calls("load")); n > h+1 {
+					out = append(out, explore.Finding{Sig: "C16|Cursor.Ceil|too-many-loads", What: "placing a cursor read more nodes than height+1", Detail: fmt.Sprintf("key %v: %d loads, height %d", cfg.Key(i), n, h)})
+					break
+				}
+			}
+			w.Store.ResetLog()
+			r = guardRes(func() error {
+				return t.SeekIter(ctx, cfg.Key(i), func(k, v interface{}) error { return mast.ErrIterDone })
+			})
+			if r.Err == nil && r.Panic == nil {
+				if n := len(w.Store.Calls("load")); n > 2*(h+1) {
+					out = append(out, explore.Finding{Sig: "C16|SeekIter-first-entry|too-many-loads", What: "SeekIter stopped at its first entry read more than 2*(height+1) nodes", Detail: fmt.Sprintf("key %v: %d loads, height %d", cfg.Key(i), n, h)})
+					break
+				}
+			}
+		}
 		w.Store.ResetLog()
 		r := guardRes(func() error { _, err := t.Clone(ctx); return err })
 		if r.Err == nil && r.Panic == nil {
